@@ -275,7 +275,10 @@ def shrink(case, still_fails, shrinkable, budget=400):
                 continue
             f = fields[fi]
             if "," in f or f == "_":
-                items = unhexlist(f)
+                try:
+                    items = unhexlist(f)
+                except ValueError:
+                    continue            # not a list of hex strings (a server script, say): left as it is
                 cands = [items[:i] + items[i + 1:] for i in range(len(items))]
                 for i, it in enumerate(items):
                     for v in _variants_bytes(it)[:16]:
